@@ -1,54 +1,221 @@
 import IcyVerif.Lemmas.BinFormatsCells
+import IcyVerif.Props.C11
 set_option linter.unusedSimpArgs false
 set_option linter.unusedVariables false
 /-!
 # C05: `from_bytes` on a file the engine wrote with / without a SAUCE record
+
+The SAUCE model is C11's (`Model/Sauce.lean`); its theorems `load_ignores_sauce` (the loader is handed exactly the
+content and the record the variant can carry, for every content and all metadata) and `extract_total` do the work here.
 -/
 namespace IcyVerif.BinFormats
 open IcyVerif.XbCompress IcyVerif.Gen
 
-/-- with a SAUCE record: `from_bytes` hands the loader exactly the body and the size / ice flag of the record -/
-theorem fromBytes_sauced (f : Fmt) (k : SauceKind) (p : Pic) (date body : List Nat) (f0 : Font) (dt ft t1 t2 : Nat) (ice named : Bool)
-    (hf0 : lookupFont p.fonts 0 = some f0) (hfields : sauceFields k p = some (dt, ft, t1, t2, ice, named))
-    (hdate : dateOk date = true) :
-    ∃ bytes, writeSauce k p date body = .ok bytes ∧
-      fromBytes f bytes = loadBody f body (some
-        ⟨(sauceDims (dt % 256) (ft % 256) (t1 % 256 + (t1 / 256) % 256 * 256) (t2 % 256 + (t2 / 256) % 256 * 256)
-            (if ice then BinFmt.sauceFlagNonBlink else 0)).1,
-         (sauceDims (dt % 256) (ft % 256) (t1 % 256 + (t1 / 256) % 256 * 256) (t2 % 256 + (t2 / 256) % 256 * 256)
-            (if ice then BinFmt.sauceFlagNonBlink else 0)).2.1,
-         (sauceDims (dt % 256) (ft % 256) (t1 % 256 + (t1 / 256) % 256 * 256) (t2 % 256 + (t2 / 256) % 256 * 256)
-            (if ice then BinFmt.sauceFlagNonBlink else 0)).2.2, 129⟩) := by
-  have hd8 := dateOk_length date hdate
-  let info := infoStr (if named then f0.name else [])
-  let fl := if ice then BinFmt.sauceFlagNonBlink else 0
-  let bytes := body ++ [0x1A] ++ sauceHead date (body.length + 1) ++
-      ([dt % 256, ft % 256] ++ u16le t1 ++ u16le t2 ++ [0, 0, 0, 0] ++ [0, fl] ++ info)
-  have hsave : writeSauce k p date body = .ok bytes := by
-    unfold writeSauce
-    simp only [hf0, hfields]
-    rfl
-  obtain ⟨hext, hlen⟩ := extract_written body date info (dt % 256) (ft % 256) (t1 % 256) ((t1 / 256) % 256)
-    (t2 % 256) ((t2 / 256) % 256) 0 0 0 0 fl hd8 hdate (infoStr_length _)
-  have hext' : extractSauce bytes = _ := hext
-  have hlen' : bytes.length = body.length + 129 := hlen
-  refine ⟨bytes, hsave, ?_⟩
-  unfold fromBytes
-  rw [hext']
-  simp only
-  have hbody : bytes.take (bytes.length - 129) = body := by
-    rw [hlen']
-    have e : body.length + 129 - 129 = body.length := by omega
-    rw [e]
-    show (body ++ [0x1A] ++ sauceHead date (body.length + 1) ++ _).take body.length = body
-    rw [List.append_assoc, List.append_assoc]
-    exact List.take_left' rfl
-  rw [hbody]
+theorem kind_lt (k : SauceKind) : k.idx < 9 := by cases k <;> decide
 
-/-- without a SAUCE record (and no picture content that reads as one): the loader sees the whole file -/
-theorem fromBytes_plain (f : Fmt) (bytes : List Nat) (h : looksLikeSauce bytes = false) :
+/-- `metaOk` is C11's `Valid` plus the comment limit -/
+theorem metaOk_valid (p : Pic) (name : List Nat) (h : metaOk p.sauce = true) :
+    Sauce.Valid (bufInfo p name) ∧ (p.sauce.getD {}).comments.length ≤ Gen.Sauce.commentLimit := by
+  unfold metaOk at h
+  cases hs : p.sauce with
+  | none =>
+    refine ⟨⟨?_, ?_, ?_, ?_⟩, ?_⟩ <;> simp [bufInfo, hs]
+  | some m =>
+    rw [hs] at h
+    simp only [Bool.and_eq_true, decide_eq_true_eq, List.all_eq_true] at h
+    obtain ⟨⟨⟨⟨h1, h2⟩, h3⟩, h4⟩, h5⟩ := h
+    refine ⟨⟨?_, ?_, ?_, ?_⟩, ?_⟩ <;> simp only [bufInfo, hs, Option.getD_some]
+    · exact h1
+    · exact h2
+    · exact h3
+    · exact h4
+    · exact h5
+
+/-- with a SAUCE record: the writer succeeds and `from_bytes` hands the loader exactly the body and the record the
+    variant carries (C11 `load_ignores_sauce`) — whatever the body is, whatever title / author / group / comments -/
+theorem fromBytes_sauced (f : Fmt) (k : SauceKind) (p : Pic) (date body : List Nat) (f0 : Font)
+    (hf0 : lookupFont p.fonts 0 = some f0) (hm : metaOk p.sauce = true) (hbin : k = .bin → p.w / 2 ≤ 255)
+    (hdate : dateOk date = true) :
+    ∃ bytes, writeSauce k p date body = .ok bytes ∧ body.length ≤ bytes.length ∧
+      fromBytes f bytes = loadBody f body (some (Sauce.carry k.idx (bufInfo p f0.name) (bytes.length - body.length))) := by
+  obtain ⟨hv, hc⟩ := metaOk_valid p f0.name hm
+  have hd8 : date.length = Gen.Sauce.dateLen := dateOk_length date hdate
+  have hout := IcyVerif.C11.write_outcome k.idx (bufInfo p f0.name) date body
+  have hcl : ¬ ((p.sauce.getD {}).comments.length > Gen.Sauce.commentLimit) := by omega
+  rcases hout with ⟨bytes, hw⟩ | ⟨_, hgt⟩ | ⟨_, hnone, hgt⟩
+  · refine ⟨bytes, ?_, ?_, ?_⟩
+    · unfold writeSauce
+      simp only [hcl, if_false, hf0, hw]
+    · simp only [Sauce.writeSauceInfo] at hw
+      obtain ⟨tail, _, h2⟩ := Sauce.bind_eq_ok hw
+      have := (Sauce.Res.ok.inj h2).symm
+      subst this
+      simp only [List.length_append]; omega
+    · unfold fromBytes
+      rw [IcyVerif.C11.load_ignores_sauce dateOk k.idx (kind_lt k) (bufInfo p f0.name) hv date hd8 hdate body bytes hw]
+  · exact absurd hgt (by simpa [bufInfo] using hcl)
+  · exfalso
+    cases k with
+    | bin => have := hbin rfl; simp only [bufInfo] at hgt; omega
+    | xbin => revert hnone; decide
+    | ansi => revert hnone; decide
+    | tundra => revert hnone; decide
+
+/-- `SauceData::extract` never panics (C11), so `from_bytes` without a record hands the loader the whole file -/
+theorem fromBytes_plain' (f : Fmt) (bytes : List Nat) (h : tailReadsAsSauce bytes = false) :
     fromBytes f bytes = loadBody f bytes none := by
-  unfold fromBytes
-  rw [extract_none bytes h]
+  unfold fromBytes Sauce.fromBytesSplit
+  unfold tailReadsAsSauce at h
+  have hsl : Sauce.slice bytes 0 bytes.length = .ok bytes := by
+    rw [Sauce.slice_ok (Nat.zero_le _) (Nat.le_refl _)]; simp
+  cases hx : Sauce.extract dateOk bytes with
+  | ok o =>
+    cases o with
+    | none => simp only [hsl, Sauce.bind_ok]
+    | some s => rw [hx] at h; exact absurd h (by simp)
+  | err e => simp only [hsl, Sauce.bind_ok]
+  | panic site => exact absurd hx (IcyVerif.C11.extract_total dateOk bytes site)
+
+theorem commentPart_len_le' {data : List Nat} {nc : Nat} {cs : List (List Nat)} {len : Nat}
+    (h : Sauce.commentPart data nc = .ok (cs, len)) : len + 128 ≤ data.length := by
+  have hl : Gen.Sauce.sauceLen = 128 := rfl
+  simp only [Sauce.commentPart] at h
+  split at h
+  · obtain ⟨avail, h1, h⟩ := Sauce.bind_eq_ok h
+    obtain ⟨_, ha⟩ := Sauce.usub_eq_ok h1
+    split at h
+    · cases h
+    obtain ⟨x, h2, h⟩ := Sauce.bind_eq_ok h
+    obtain ⟨_, hx⟩ := Sauce.usub_eq_ok h2
+    obtain ⟨st, h3, h⟩ := Sauce.bind_eq_ok h
+    obtain ⟨_, hst⟩ := Sauce.usub_eq_ok h3
+    obtain ⟨id, _, h⟩ := Sauce.bind_eq_ok h
+    split at h
+    · cases h
+    obtain ⟨cs', _, h⟩ := Sauce.bind_eq_ok h
+    have := Sauce.Res.ok.inj h
+    have hlen : st = len := congrArg Prod.snd this
+    omega
+  · obtain ⟨l, h1, h⟩ := Sauce.bind_eq_ok h
+    obtain ⟨_, hl'⟩ := Sauce.usub_eq_ok h1
+    have := Sauce.Res.ok.inj h
+    have hlen : l = len := congrArg Prod.snd this
+    omega
+
+/-- a record found by `extract` claims at least its own 128 bytes -/
+theorem sauce_header_ge (dateOk : List Nat → Bool) (data : List Nat) (s : Sauce.Sauce)
+    (h : Sauce.extract dateOk data = .ok (some s)) : 128 ≤ s.headerLen := by
+  simp only [Sauce.extract] at h
+  split at h
+  · cases h
+  obtain ⟨o0, _, h⟩ := Sauce.bind_eq_ok h
+  obtain ⟨oh, _, h⟩ := Sauce.bind_eq_ok h
+  cases oh with
+  | none => cases h
+  | some hd =>
+    obtain ⟨r, hr, h⟩ := Sauce.bind_eq_ok h
+    obtain ⟨hl, h1, h⟩ := Sauce.bind_eq_ok h
+    obtain ⟨_, e⟩ := Sauce.usub_eq_ok h1
+    have := Option.some.inj (Sauce.Res.ok.inj h)
+    rw [← this]
+    show 128 ≤ hl
+    have hcp := commentPart_len_le' (cs := r.1) (len := r.2) (by simpa using hr)
+    have : Gen.Sauce.eofLen = 1 := rfl
+    omega
+
+/-- no SAUCE signature 128 bytes before the end: `extract` answers `Ok(None)` -/
+theorem tail_of_looks (bytes : List Nat) (h : looksLikeSauce bytes = false) : tailReadsAsSauce bytes = false := by
+  unfold tailReadsAsSauce Sauce.extract
+  unfold looksLikeSauce at h
+  have hl : Gen.Sauce.sauceLen = 128 := rfl
+  have hl' : BinFmt.sauceLen = 128 := rfl
+  by_cases hlen : bytes.length < 128
+  · simp [hl, hlen]
+  · have hge : 128 ≤ bytes.length := by omega
+    simp only [hl, hlen, if_false]
+    rw [Sauce.usub_ok hge, Sauce.bind_ok]
+    unfold Sauce.parseHeader
+    have hs5 : Gen.Sauce.sauceIdSlice = 5 := rfl
+    rw [Sauce.slice_ok (by omega) (by rw [hs5]; omega), Sauce.bind_ok]
+    simp only [hl', hge, decide_true, Bool.true_and, beq_eq_false_iff_ne, ne_eq] at h
+    have hne : Gen.Sauce.sauceId ≠ List.take (bytes.length - 128 + Gen.Sauce.sauceIdSlice - (bytes.length - 128)) (List.drop (bytes.length - 128) bytes) := by
+      have e : bytes.length - 128 + Gen.Sauce.sauceIdSlice - (bytes.length - 128) = 5 := by rw [hs5]; omega
+      rw [e]
+      intro hc
+      exact h hc.symm
+    simp only [hne, ne_eq, not_false_eq_true, if_true, Sauce.bind_ok]
+
+/-- without a SAUCE record (and no picture content that starts with the signature): the loader sees the whole file -/
+theorem fromBytes_plain (f : Fmt) (bytes : List Nat) (h : looksLikeSauce bytes = false) :
+    fromBytes f bytes = loadBody f bytes none :=
+  fromBytes_plain' f bytes (tail_of_looks bytes h)
+
+/-! ## the start buffer of a loader after `set_sauce(record, true)` -/
+
+/-- the font table after `set_sauce`: font 0 is the font the record names when that is one of `SAUCE_FONT_NAMES` -/
+def startFonts (s : Sauce.Sauce) : List (Nat × Font) :=
+  match s.font.bind sauceFontByName with
+  | some f => setFont [(0, defaultFont)] 0 f
+  | none => [(0, defaultFont)]
+
+theorem start_setSauce (w0 h0 : Nat) (s : Sauce.Sauce) (hw1 : 1 ≤ s.width) (hw2 : s.width ≤ 1000) :
+    (LBuf.start w0 h0 true).setSauce true (some s) =
+      { bw := s.width, bh := s.height, lw := s.width, lh := s.height, lines := [], ice := if s.ice then .ice else .unlimited,
+        pal := dosPalette, fonts := startFonts s, sauce := some (metaOf s) } := by
+  unfold LBuf.setSauce LBuf.start startFonts
+  have hm : BinFmt.sauceMaxWidth = 1000 := rfl
+  have hcond : ¬ (s.width = 0 ∨ s.width > BinFmt.sauceMaxWidth) := by rw [hm]; omega
+  simp only [if_true, hcond, if_false]
+  cases s.font.bind sauceFontByName <;> rfl
+
+theorem start_setSauce_none (w0 h0 : Nat) :
+    (LBuf.start w0 h0 true).setSauce true none =
+      { bw := w0, bh := h0, lw := w0, lh := h0, lines := [], ice := .unlimited, pal := dosPalette, fonts := [(0, defaultFont)],
+        sauce := none } := by
+  unfold LBuf.setSauce LBuf.start
+  simp
+
+/-! ## what the record of each writer carries (C11 `carry_*`), in the form the loaders use -/
+
+theorem carry_xbin (p : Pic) (name : List Nat) (hl : Nat) (hw : p.w < 65536) (hh : p.h < 65536) :
+    (Sauce.carry SauceKind.xbin.idx (bufInfo p name) hl).width = p.w ∧ (Sauce.carry SauceKind.xbin.idx (bufInfo p name) hl).height = p.h ∧
+    (Sauce.carry SauceKind.xbin.idx (bufInfo p name) hl).ice = false ∧ (Sauce.carry SauceKind.xbin.idx (bufInfo p name) hl).font = none := by
+  obtain ⟨h1, h2, h3, _, _, h6, _⟩ := IcyVerif.C11.carry_plain 8 (by decide) (bufInfo p name) hl
+  refine ⟨?_, ?_, h3, h6⟩
+  · rw [show SauceKind.xbin.idx = 8 from rfl, h1]; simp only [bufInfo]; omega
+  · rw [show SauceKind.xbin.idx = 8 from rfl, h2]; simp only [bufInfo]; simp; omega
+
+theorem carry_tundra (p : Pic) (name : List Nat) (hl : Nat) (hw : p.w < 65536) :
+    (Sauce.carry SauceKind.tundra.idx (bufInfo p name) hl).width = p.w ∧ (Sauce.carry SauceKind.tundra.idx (bufInfo p name) hl).height = 0 ∧
+    (Sauce.carry SauceKind.tundra.idx (bufInfo p name) hl).ice = false ∧ (Sauce.carry SauceKind.tundra.idx (bufInfo p name) hl).font = none := by
+  obtain ⟨h1, h2, h3, _, _, h6, _⟩ := IcyVerif.C11.carry_plain 6 (by decide) (bufInfo p name) hl
+  refine ⟨?_, ?_, h3, h6⟩
+  · rw [show SauceKind.tundra.idx = 6 from rfl, h1]; simp only [bufInfo]; omega
+  · rw [show SauceKind.tundra.idx = 6 from rfl, h2]; simp
+
+theorem carry_ansi (p : Pic) (name : List Nat) (hl : Nat) (hw : p.w < 65536) (hh : p.h < 65536) :
+    (Sauce.carry SauceKind.ansi.idx (bufInfo p name) hl).width = p.w ∧ (Sauce.carry SauceKind.ansi.idx (bufInfo p name) hl).height = p.h ∧
+    (Sauce.carry SauceKind.ansi.idx (bufInfo p name) hl).ice = (p.ice == .ice) := by
+  obtain ⟨h1, h2, h3, _⟩ := IcyVerif.C11.carry_ansi 2 (by decide) (bufInfo p name) hl
+  refine ⟨?_, ?_, h3⟩
+  · rw [show SauceKind.ansi.idx = 2 from rfl, h1]; simp only [bufInfo]; omega
+  · rw [show SauceKind.ansi.idx = 2 from rfl, h2]; simp only [bufInfo]; omega
+
+theorem carry_bin (p : Pic) (name : List Nat) (hl : Nat) :
+    (Sauce.carry SauceKind.bin.idx (bufInfo p name) hl).width = p.w / 2 * 2 ∧ (Sauce.carry SauceKind.bin.idx (bufInfo p name) hl).height = 25 ∧
+    (Sauce.carry SauceKind.bin.idx (bufInfo p name) hl).ice = (p.ice == .ice) ∧
+    (Sauce.carry SauceKind.bin.idx (bufInfo p name) hl).font =
+      some (Sauce.strText (Sauce.carryNul (Sauce.strFrom Gen.Sauce.tinfoLen name))) := by
+  obtain ⟨h1, h2, h3, _, _, h6, _⟩ := IcyVerif.C11.carry_bin (bufInfo p name) hl
+  exact ⟨h1, h2, h3, h6⟩
+
+/-- the SAUCE data a loaded buffer keeps: the texts of the saved buffer as a SAUCE field carries them -/
+theorem metaOf_carry (k : SauceKind) (p : Pic) (name : List Nat) (hl : Nat) :
+    (metaOf (Sauce.carry k.idx (bufInfo p name) hl)).title = Sauce.carryPad Gen.Sauce.titleLen Gen.Sauce.titlePad (p.sauce.getD {}).title ∧
+    (metaOf (Sauce.carry k.idx (bufInfo p name) hl)).author = Sauce.carryPad Gen.Sauce.authorLen Gen.Sauce.authorPad (p.sauce.getD {}).author ∧
+    (metaOf (Sauce.carry k.idx (bufInfo p name) hl)).group = Sauce.carryPad Gen.Sauce.groupLen Gen.Sauce.groupPad (p.sauce.getD {}).group ∧
+    (metaOf (Sauce.carry k.idx (bufInfo p name) hl)).comments = (p.sauce.getD {}).comments.map Sauce.carryNul := by
+  obtain ⟨h1, h2, h3, h4, _⟩ := IcyVerif.C11.carry_texts k.idx (bufInfo p name) hl
+  exact ⟨h1, h2, h3, h4⟩
 
 end IcyVerif.BinFormats
